@@ -279,6 +279,13 @@ pub fn edits_b0() -> Vec<Edit> {
         },
         Edit::rep("struct_rename", "type-rename", c, "pub struct Progress {", "pub struct Progress2 {"),
         Edit::rep("field_pub", "field-visibility", c, "    pub tag: String,", "    tag: String,"),
+        Edit::rep("field_rename_to_own_ident", "serde-rename", c, "    pub user_id: i32,", "    #[serde(rename = \"user_id\")]\n    pub user_id: i32,"),
+        Edit::rep("variant_rename_to_own_ident", "variant-rename", c, "    Active,\n", "    #[serde(rename = \"Active\")]\n    Active,\n"),
+        Edit::rep("second_emit_site_other_payload", "event-payload", c, "    let _ = (url, on_progress);", "    app.emit(\"download-started\", 7u32).unwrap();\n    let _ = (url, on_progress);"),
+        Edit::rep("second_emit_site_same_payload", "event-emit-site", c, "    let _ = (url, on_progress);", "    app.emit(\"download-started\", Progress { done: 1, total: 1 }).unwrap();\n    let _ = (url, on_progress);"),
+        Edit::rep("command_macro_case", "command-macro-args", c, "#[tauri::command]\npub fn get_user(", "#[tauri::command(rename_all = \"snake_case\")]\npub fn get_user("),
+        Edit::rep("struct_rename_all_split", "serde-rename-all", c, "#[serde(rename_all = \"camelCase\")]\npub struct User", "#[serde(rename_all(serialize = \"SCREAMING_SNAKE_CASE\", deserialize = \"camelCase\"))]\npub struct User"),
+        Edit::rep("field_rename_split", "serde-rename", c, "#[serde(rename = \"fullName\")]", "#[serde(rename(serialize = \"displayName\", deserialize = \"fullName\"))]"),
     ]
 }
 
